@@ -196,6 +196,42 @@ def replay(ck, path):
         print('  problems:', dc.py_live_check(evs)[0], 'catalog at end:', results[1] if results else None)
 
 
+
+# external scalar inputs (xsc_k = k + 1) mixed with datasets; DS_k holds Me_1 = 5**k * Id_1 for Id_1 = 1..3
+EXTERNAL_SCALAR_SCRIPTS = [
+    ('DS_r1 <- xsc_1 + DS_1;', [1], lambda i: 2 + 5 * i),
+    ('DS_r1 <- DS_1 + xsc_1;', [1], lambda i: 5 * i + 2),
+    ('DS_r2 := DS_1 * 2; DS_r1 <- xsc_1 * DS_r2 + DS_2;', [1, 2], lambda i: 2 * (10 * i) + 25 * i),
+    ('DS_r1 <- xsc_1 * DS_1 + xsc_2 * DS_2;', [1, 2], lambda i: 2 * 5 * i + 3 * 25 * i),
+    ('DS_r1 <- DS_1[calc Me_1 := Me_1 + xsc_1] + DS_2;', [1, 2], lambda i: 5 * i + 2 + 25 * i),
+    ('DS_r2 := xsc_2 - DS_2; DS_r1 <- DS_1 + DS_r2;', [1, 2], lambda i: 5 * i + 3 - 25 * i),
+    ('DS_r1 <- xsc_1 + DS_1; DS_r2 <- xsc_1 + DS_2;', [1, 2], lambda i: 2 + 5 * i),
+]
+
+
+def external_scalar_level(ck, eng):
+    """a statement's load list also names the external SCALARS it reads: they are not tables, and every dataset of the
+    list must still be loaded before the statement runs (the schedule is executed by load_scheduled_datasets)."""
+    jobs = [(s, inp, True, False) for s, inp, _ in EXTERNAL_SCALAR_SCRIPTS]
+    res = eng.map(dc.run_case, jobs)
+    for (script, inp, f), r in zip(EXTERNAL_SCALAR_SCRIPTS, res):
+        ck.count(('external-scalars', script))
+        rep = {'script': script, 'inputs': [dc.in_name(k) for k in inp], 'scalar_values': 'xsc_k = k + 1',
+               'entry': 'run(script, structures + scalars, datapoints DS_k: Id_1=1..3, Me_1=5**k*Id_1, scalar_values)',
+               'outcome': {k: v for k, v in r.items() if k != 'trace'}}
+        if r.get('kind') == 'timeout':
+            raise RuntimeError('engine timeout on ' + script)
+        if not r.get('ok'):
+            ck.violation('c13:external-scalars:valid-script-fails', rep,
+                         'run() of a valid script that reads an external scalar fails: %s' % (r.get('code') or r.get('msg')))
+            continue
+        got = r['results'].get('DS_r1')
+        exp = [(i, float(f(i))) for i in (1, 2, 3)]
+        if got is None or len(got) != 3 or any(a[0] != b[0] or a[1] is None or abs(a[1] - b[1]) > 1e-9 * max(1.0, abs(b[1])) for a, b in zip(got, exp)):
+            ck.violation('c13:external-scalars:wrong-result', dict(rep, expected=exp), 'DS_r1 differs from the value of the script')
+    ck.note('external_scalar_level', {'scripts': len(EXTERNAL_SCALAR_SCRIPTS)})
+
+
 def main(ck):
     if ck.replay_path:
         replay(ck, ck.replay_path); return
@@ -215,6 +251,7 @@ def main(ck):
         dis = usage_level(ck, eng, pop)
         t1 = time.time()
         dis += trace_level(ck, eng, pop)
+        external_scalar_level(ck, eng)
         t2 = time.time()
         if dis and not ck.viol:
             search(ck, eng, dis)
